@@ -71,6 +71,14 @@ def generate(rng, tier):
             clobber = ["NS", "4"] + [x for _ in range(6) for x in ("NR", "0", "1", C.fh(rng.range(-8, 8) / 4.0))] + ["NS", "0"]
             t = first + clobber + h + R.full_rect_path(vb)
         g["repeated-helper"].append("PIPE 0 0 32 32 " + " ".join(t))
+    # a path-data transform configured on the Generator does not concern the gradient helpers
+    g["after-set-transform"] = []
+    for _ in range(150 if tier == "quick" else 3000):
+        tr = rng.choice(["T:%s,%s" % (C.fh(float(rng.range(-16, 16))), C.fh(float(rng.range(-16, 16)))),
+                         "S:%s,%s" % (C.fh(rng.choice([0.5, 2.0, 3.0])), C.fh(rng.choice([0.5, 2.0, 3.0]))),
+                         "T:%s,%s;S:%s,%s" % (C.fh(-16.0), C.fh(-16.0), C.fh(2.0), C.fh(2.0))])
+        t = ["R"] + vb + ["-", "ST", tr] + helper(rng, rng.choice([2, 3])) + R.full_rect_path(vb)
+        g["after-set-transform"].append("PIPE 0 0 32 32 " + " ".join(t))
     # through DestinationLogger (which forwards the selector getters), after incrementing register writes
     g["through-logger"] = []
     for sel in range(0, 64, 3):
